@@ -1,6 +1,8 @@
 import NbdimeModel
 import NbdimeProofs.Lemmas.MergeLaws
 import NbdimeProofs.Lemmas.ApplyOneSided
+import NbdimeProofs.Lemmas.ApplyKeywise
+import NbdimeProofs.Lemmas.JsonEq
 import NbdimeProofs.Lemmas.NbWf
 import NbdimeProofs.Properties.C01
 import NbdimeProofs.Properties.C02
@@ -186,6 +188,155 @@ theorem C05_notebook_onesided_adoption (E : Env) (O : Oracle) (hO : OracleOK O) 
   C05_model_onesided_apply E base ld ds x ca (C11_notebook_wf O hO cfg hcfg _ x ld ca cx hab hd)
     (C01_roundtrip_partial O hO cfg hcfg _ x ld ca cx hab hd) h
 
+open Merge in
+/-- **key-wise merges at document level** (root object): the two diffs are well-formed for `base` and carry the same
+    entry wherever they share a root key (one side only, the other side only, or both the same — at any depth below
+    the key). Then `apply_decisions ∘ decide_merge_with_diff` gives `base` patched with the local diff and with the
+    remote entries under the remaining keys — every strategy table, every oracle. -/
+theorem C05_model_keywise_apply (E : Env) (base : List (String × J)) (ld rd : List Op) (ds : List MD) (X : J)
+    (hc : (J.obj base).canonical = true) (hwfL : wf (.obj base) ld = true) (hwfR : wf (.obj base) rd = true)
+    (hagree : ∀ el ∈ ld, ∀ er ∈ rd, el.skey = er.skey → el = er)
+    (hX : patch (.obj base) (ld ++ rd.filter (fun e => !(ld.map Op.skey).contains e.skey)) = .ok X)
+    (h : decideMerge E (.obj base) ld rd = .ok ds) :
+    applyDecisions (.obj base) (ds.map MD.toDecision) = .ok X := by
+  rw [wf] at hwfL hwfR
+  obtain ⟨l1, l2, _⟩ := wfObj_shape base ld [] hwfL
+  obtain ⟨r1, r2, _⟩ := wfObj_shape base rd [] hwfR
+  exact (apply_keywise_obj E base ld rd ds X hc l1 l2 r1 r2 hagree hX h).1
+
+open Merge in
+/-- one-sided adoption, remote role: `merge(base, base, X) = X` for any root object -/
+theorem C05_model_onesided_apply_remote (E : Env) (base : List (String × J)) (rd : List Op) (ds : List MD) (X : J)
+    (hc : (J.obj base).canonical = true) (hwf : wf (.obj base) rd = true)
+    (hX : patch (.obj base) rd = .ok X) (h : decideMerge E (.obj base) [] rd = .ok ds) :
+    applyDecisions (.obj base) (ds.map MD.toDecision) = .ok X := by
+  rw [wf] at hwf
+  obtain ⟨r1, r2, _⟩ := wfObj_shape base rd [] hwf
+  refine (apply_keywise_obj E base [] rd ds X hc (fun _ h => nomatch h) List.nodup_nil r1 r2
+    (fun _ h => nomatch h) ?_ h).1
+  have : rd.filter (fun e => !(([] : List Op).map Op.skey).contains e.skey) = rd :=
+    List.filter_eq_self.mpr (fun _ _ => rfl)
+  rw [List.nil_append, this]; exact hX
+
+open Merge in
+/-- agreement at document level: both sides made the change `d`; the merged document is `base` patched with `d` -/
+theorem C05_model_agreement_apply (E : Env) (base : List (String × J)) (d : List Op) (ds : List MD) (X : J)
+    (hc : (J.obj base).canonical = true) (hwf : wf (.obj base) d = true)
+    (hX : patch (.obj base) d = .ok X) (h : decideMerge E (.obj base) d d = .ok ds) :
+    applyDecisions (.obj base) (ds.map MD.toDecision) = .ok X := by
+  rw [wf] at hwf
+  obtain ⟨d1, d2, _⟩ := wfObj_shape base d [] hwf
+  refine (apply_keywise_obj E base d d ds X hc d1 d2 d1 d2 ?_ ?_ h).1
+  · intro el hel er her hk
+    exact inj_of_map_nodup Op.skey d d2 el hel er her hk
+  · have : d.filter (fun e => !(d.map Op.skey).contains e.skey) = [] := by
+      rw [List.filter_eq_nil_iff]
+      intro e he
+      simp [List.mem_map_of_mem he]
+    rw [this, List.append_nil]; exact hX
+
+
+open Merge in
+/-- end to end, remote role, generic JSON objects: diff, decide with the local side unchanged, apply = the remote document -/
+theorem C05_generic_onesided_adoption_remote (E : Env) (O : Oracle) (hO : OracleOK O) (base : List (String × J)) (x : J)
+    (rd : List Op) (ds : List MD) (ca : (J.obj base).canonical = true) (cx : x.canonical = true)
+    (hab : Compat (.obj base) x) (hd : diffGeneric O (.obj base) x = .ok rd)
+    (h : decideMerge E (.obj base) [] rd = .ok ds) :
+    applyDecisions (.obj base) (ds.map MD.toDecision) = .ok x :=
+  C05_model_onesided_apply_remote E base rd ds x ca (C11_generic_wf O hO _ x rd ca cx hab hd)
+    (C02_roundtrip_partial O hO _ x rd ca cx hab hd) h
+
+open Merge in
+/-- end to end, remote role, notebooks -/
+theorem C05_notebook_onesided_adoption_remote (E : Env) (O : Oracle) (hO : OracleOK O) (cfg : Cfg) (hcfg : cfgSoundB cfg = true)
+    (base : List (String × J)) (x : J) (rd : List Op) (ds : List MD)
+    (ca : (J.obj base).canonical = true) (cx : x.canonical = true) (hab : Compat (.obj base) x)
+    (hd : diffNotebooks O cfg (.obj base) x = .ok rd) (h : decideMerge E (.obj base) [] rd = .ok ds) :
+    applyDecisions (.obj base) (ds.map MD.toDecision) = .ok x :=
+  C05_model_onesided_apply_remote E base rd ds x ca (C11_notebook_wf O hO cfg hcfg _ x rd ca cx hab hd)
+    (C01_roundtrip_partial O hO cfg hcfg _ x rd ca cx hab hd) h
+
+open Merge in
+/-- end to end, agreement, generic JSON objects: both sides turned `base` into `x` -/
+theorem C05_generic_agreement_adoption (E : Env) (O : Oracle) (hO : OracleOK O) (base : List (String × J)) (x : J)
+    (d : List Op) (ds : List MD) (ca : (J.obj base).canonical = true) (cx : x.canonical = true)
+    (hab : Compat (.obj base) x) (hd : diffGeneric O (.obj base) x = .ok d)
+    (h : decideMerge E (.obj base) d d = .ok ds) :
+    applyDecisions (.obj base) (ds.map MD.toDecision) = .ok x :=
+  C05_model_agreement_apply E base d ds x ca (C11_generic_wf O hO _ x d ca cx hab hd)
+    (C02_roundtrip_partial O hO _ x d ca cx hab hd) h
+
+open Merge in
+/-- end to end, agreement, notebooks -/
+theorem C05_notebook_agreement_adoption (E : Env) (O : Oracle) (hO : OracleOK O) (cfg : Cfg) (hcfg : cfgSoundB cfg = true)
+    (base : List (String × J)) (x : J) (d : List Op) (ds : List MD)
+    (ca : (J.obj base).canonical = true) (cx : x.canonical = true) (hab : Compat (.obj base) x)
+    (hd : diffNotebooks O cfg (.obj base) x = .ok d) (h : decideMerge E (.obj base) d d = .ok ds) :
+    applyDecisions (.obj base) (ds.map MD.toDecision) = .ok x :=
+  C05_model_agreement_apply E base d ds x ca (C11_notebook_wf O hO cfg hcfg _ x d ca cx hab hd)
+    (C01_roundtrip_partial O hO cfg hcfg _ x d ca cx hab hd) h
+
+open Merge in
+/-- **C06 at document level, different keys of the root object** (for notebooks: one side works on the cells, the other
+    on the notebook metadata / format fields; for generic JSON: "changes under different keys"): two well-formed
+    diffs that share no root key merge without conflict into exactly base with both diffs applied. -/
+theorem C06_model_different_keys (E : Env) (base : List (String × J)) (ld rd : List Op) (ds : List MD) (X : J)
+    (hc : (J.obj base).canonical = true) (hwfL : wf (.obj base) ld = true) (hwfR : wf (.obj base) rd = true)
+    (hdisj : ∀ el ∈ ld, ∀ er ∈ rd, el.skey ≠ er.skey)
+    (hX : patch (.obj base) (ld ++ rd) = .ok X) (h : decideMerge E (.obj base) ld rd = .ok ds) :
+    applyDecisions (.obj base) (ds.map MD.toDecision) = .ok X ∧ ∀ d ∈ ds, d.conflict = false := by
+  rw [wf] at hwfL hwfR
+  obtain ⟨l1, l2, _⟩ := wfObj_shape base ld [] hwfL
+  obtain ⟨r1, r2, _⟩ := wfObj_shape base rd [] hwfR
+  refine apply_keywise_obj E base ld rd ds X hc l1 l2 r1 r2 (fun el hl er hr hk => absurd hk (hdisj el hl er hr)) ?_ h
+  have : rd.filter (fun e => !(ld.map Op.skey).contains e.skey) = rd := by
+    rw [List.filter_eq_self]
+    intro e he
+    simp only [Bool.not_eq_true', List.contains_eq_mem, decide_eq_false_iff_not, List.mem_map, not_exists, not_and]
+    intro el hel hk
+    exact hdisj el hel e he hk
+  rw [this]; exact hX
+
+open Merge in
+/-- C09, "applying the decisions to base gives the merged document", and no conflict, for key-wise merges -/
+theorem C09_model_keywise_apply (E : Env) (base : List (String × J)) (ld rd : List Op) (ds : List MD) (X : J)
+    (hc : (J.obj base).canonical = true) (hwfL : wf (.obj base) ld = true) (hwfR : wf (.obj base) rd = true)
+    (hagree : ∀ el ∈ ld, ∀ er ∈ rd, el.skey = er.skey → el = er)
+    (hX : patch (.obj base) (ld ++ rd.filter (fun e => !(ld.map Op.skey).contains e.skey)) = .ok X)
+    (h : decideMerge E (.obj base) ld rd = .ok ds) :
+    applyDecisions (.obj base) (ds.map MD.toDecision) = .ok X ∧ ∀ d ∈ ds, d.conflict = false := by
+  rw [wf] at hwfL hwfR
+  obtain ⟨l1, l2, _⟩ := wfObj_shape base ld [] hwfL
+  obtain ⟨r1, r2, _⟩ := wfObj_shape base rd [] hwfR
+  exact apply_keywise_obj E base ld rd ds X hc l1 l2 r1 r2 hagree hX h
+
+
+open Merge in
+/-- the key-wise theorem under its decidable hypothesis `Merge.keywise` (evaluated by the driver on every generated
+    root-key case): inside the domain, whenever the combined diff patches base and the merge returns decisions,
+    `apply_decisions ∘ decide_merge_with_diff` = `patch base (ld ∪ rd)` and no decision is a conflict. -/
+theorem C06_model_keywise (E : Env) (base : J) (ld rd : List Op) (X Y : J)
+    (hk : keywise base ld rd = true) (hX : patch base (keywiseUnion ld rd) = .ok X)
+    (h : mergeApply E base ld rd = .ok Y) : Y = X := by
+  cases base with
+  | obj kvs =>
+    simp only [keywise, Bool.and_eq_true, List.all_eq_true, Bool.or_eq_true, bne_iff_ne, ne_eq] at hk
+    obtain ⟨⟨⟨hc, hwl⟩, hwr⟩, hag⟩ := hk
+    unfold mergeApply at h
+    simp only [bind, Except.bind] at h
+    cases hd : decideMerge E (.obj kvs) ld rd with
+    | error e => simp [hd] at h
+    | ok ds =>
+      simp only [hd] at h
+      have := (C09_model_keywise_apply E kvs ld rd ds X hc hwl hwr
+        (fun el hel er her hkey => by
+          rcases hag el hel er her with h1 | h1
+          · exact absurd hkey h1
+          · exact Op.beq_eq el er h1) hX hd).1
+      rw [this] at h
+      cases h; rfl
+  | _ => simp [keywise] at hk
+
 namespace C05ex
 open Merge
 def exE : Env := { O := { cmp := fun _ _ _ => .ok false, opcodes := fun _ _ => .ok [] }, cfg := defaultCfg,
@@ -205,6 +356,11 @@ example : showDs (decideMerge exE exBase [] exLd) = [("remote", false, 1), ("rem
 example : (match diffGeneric exOracle exA exB with
            | .ok ld => (decideMerge exE exA ld []).toBool
            | .error _ => false) = true := by decide +kernel
+/-- non-vacuity of the key-wise theorems: local changes under `a`, remote under `b`; the merge succeeds, the
+    remaining hypotheses are those of C02 / C11 (a diff the differ returns is well-formed and patches base) -/
+def exLa : List Op := [.patchK "a" [.addrange 1 [.int 9]]]
+def exRb : List Op := [.replace "b" (.int 4)]
+example : showDs (decideMerge exE exBase exLa exRb) = [("local", false, 1), ("remote", false, 0)] := by decide +kernel
 end C05ex
 
 end Nbdime
